@@ -204,6 +204,9 @@ pub struct Shadow {
     pub index: HashMap<Vec<u8>, usize>,
     /// false when the content is not predictable by the harness (e.g. after a malformed document)
     pub tracked: bool,
+    /// the limit last handed to `set_memory_limits` on this very object (the harness's own record:
+    /// the oracle must not ask the implementation which limit is in force)
+    pub limit: Option<usize>,
 }
 
 impl Shadow {
